@@ -232,6 +232,24 @@ func newHTTPFetcher(ctx context.Context, fc *fetcherConfig) (*httpFetcher, int64
 			rt.Client.Backoff = backoffStrategy
 			rt.Client.CheckRetry = retryStrategy
 			timeout = rt.Client.HTTPClient.Timeout
+
+			// The underlying http.Client follows redirects by itself and forwards the
+			// headers configured for this host to the redirected location. Redirects
+			// are handled by redirect() which doesn't pass them, so use a client that
+			// doesn't follow redirects for blob requests. The authorizer keeps using
+			// the original client.
+			hc := *rt.Client.HTTPClient
+			hc.CheckRedirect = func(*http.Request, []*http.Request) error { return http.ErrUseLastResponse }
+			rc := rhttp.NewClient()
+			rc.HTTPClient = &hc
+			rc.Logger = rt.Client.Logger
+			rc.RetryMax = rt.Client.RetryMax
+			rc.RetryWaitMin = rt.Client.RetryWaitMin
+			rc.RetryWaitMax = rt.Client.RetryWaitMax
+			rc.Backoff = rt.Client.Backoff
+			rc.CheckRetry = rt.Client.CheckRetry
+			rc.ErrorHandler = rt.Client.ErrorHandler
+			tr = &rhttp.RoundTripper{Client: rc}
 		}
 
 		if host.Authorizer != nil {
